@@ -371,10 +371,10 @@ def health(m: Any, tier: str) -> Any:
     cl = m["classes"]
     if m["notes"].get("recorded_cases", 0) < 5:
         return f"only {m['notes'].get('recorded_cases', 0)} recorded smoke cases found"
-    for k, frac in (("fe:failed", 0.1), ("inf:failed", 0.08), ("cs:failed", 0.1), ("smoke:0", 0.15), ("smoke:1", 0.3)):
+    for k, frac in (("fe:failed", 0.1), ("inf:failed", 0.04), ("cs:failed", 0.06), ("smoke:0", 0.1), ("smoke:1", 0.25)):
         if cl.get(k, 0) < frac * ev:
             return f"class {k} holds only {cl.get(k, 0)} of {ev}"
-    if m["nontrivial_n"] < 0.15 * ev:
+    if m["nontrivial_n"] < 0.1 * ev:
         return f"only {m['nontrivial_n']} non-trivial of {ev}"
     return None
 
